@@ -19,7 +19,10 @@ TEXT = {
               'configuration and layout, at each Write on the success path a failed write ends the render at once with an error '
               "whose cause is the writer's failure; frender_faulty: a writer failing at its k-th call (accepting any part) makes "
               'FRender return that error after exactly k+1 calls; frender_faulty_prefix: the bytes accepted are a prefix of the '
-              "fault-free output; capture bodies never reach the caller's writer (capture_infallible); no panic by C01. Tie: the "
+              "fault-free output; capture bodies never reach the caller's writer (capture_infallible); no panic by C01. From source bytes "
+              '(Proofs.C20Source): for every source that compiles the same three facts hold of FRender on the compiled template '
+              '(source_faulty_prefix), and whenever run returns the output out, what a writer failing at any call k accepted is a prefix of '
+              'out (run_faulty_prefix, run_spell_faulty_prefix). Tie: the '
               '`faults` stream compares the sequence of underlying Write calls with the real FRender and executes every '
               'single-fault plan (exhaustive over the call index, none/partial acceptance, fail-once/fail-forever) on the real '
               'code.'),
